@@ -577,7 +577,7 @@ func ruleR36(c *Ctx) {
 		return out
 	}
 	for _, mn := range []string{"Delete", "Search", "Insert"} {
-		cu, ru := coll.Methods[mn], ref.Methods[mn]
+		cu, ru := m.effectiveMethod(coll, mn), m.effectiveMethod(ref, mn)
 		if cu == nil || ru == nil {
 			continue
 		}
